@@ -8,10 +8,11 @@ from typing import Any, Dict, List, Optional, Tuple
 
 from hypothesis import strategies as st
 
-from .prog import MARK, enc
+from .prog import MARK, Mask, enc
 
-ANY_POOL = [0, 1, 2, "", "x", None, True, False, (), (0,), (1, 2), {"a": 0}, {}, [], [0]]
-FLAG_CONSTS = [True, False, 0, 1, "", "x", None]
+# Mask: a user object whose truth value differs from "len() > 0" (what an array holding a single zero looks like)
+ANY_POOL = [0, 1, 2, "", "x", None, True, False, (), (0,), (1, 2), {"a": 0}, {}, [], [0], Mask(False, 1), Mask(True, 0)]
+FLAG_CONSTS = [True, False, 0, 1, "", "x", None, Mask(False, 1), Mask(True, 0)]
 
 
 class Ty:
@@ -160,6 +161,8 @@ def rich_prog(
     flag_w: int = 4,
     sub_w: int = 2,
     debug_w: int = 0,
+    split_w: int = 0,
+    seqop_w: int = 0,
 ) -> Dict[str, Any]:
     """no_index: the program will be called with twz_active as a nested DAG; then nothing inside it may index
     or unpack a node result (a deactivated result is None, and None[0] raises in plain Python as well)."""
@@ -223,7 +226,65 @@ def rich_prog(
         if depth > 0:
             kinds += ["sub"] * sub_w
         kinds += ["debug"] * debug_w
+        if flags and allow_flag_stmts and not no_index:
+            kinds += ["split"] * split_w
+        if not no_index:
+            kinds += ["seqop"] * seqop_w
         k = draw(st.sampled_from(kinds))
+        if k == "seqop":
+            # operators on values for which they are NOT commutative: tuple / str concatenation, dict union
+            seqs = env.leaves(lambda t: not t.desc and not t.none and t.kind in ("tup", "dict", "str"), depth=0)
+            if not seqs:
+                fn = new_fn(draw(st.sampled_from(["tup", "dict", "str"])), **({"n": 2, "unpack": None}))
+                o = out()
+                body.append({"k": "call", "fn": fn, "site": cx.next_site(), "mark": True, "args": [], "kwargs": {},
+                             "active": None, "unpack": None, "tags": [], "out": o})
+                t0 = {"tup": Ty("tup", [TERM] * 2), "dict": Ty("dict", DICT_T.elems), "str": Ty("str")}[fns[fn]["kind"]]
+                env.add(["v", o], t0)
+                seqs = [(["v", o], t0)]
+            a, ta = draw(st.sampled_from(seqs))
+            same = [e for e, t in seqs if t.kind == ta.kind]
+            if draw(st.booleans()):
+                b: Any = draw(st.sampled_from(same))
+            elif ta.kind == "tup":
+                b = ["c", enc(draw(st.sampled_from([(1,), (0, "x"), ()])))]
+            elif ta.kind == "dict":
+                b = ["c", enc(draw(st.sampled_from([{"a": 0, "z": 1}, {"b": 2}, {}])))]
+            else:
+                b = ["c", draw(st.sampled_from(["<", "ab", ""]))]
+            if b[0] == "c" and draw(st.booleans()):
+                a, b = b, a  # the constant on the left: tawazi's reflected operator has to swap the operands back
+                cx.features.add("reflected")
+            o = out()
+            body.append({"k": "op", "op": "or" if ta.kind == "dict" else "add", "a": a, "b": b, "out": o})
+            cx.features.add("seq-operator")
+            env.add(["v", o], Ty("any"))
+            continue
+        if k == "split":
+            # two calls flagged by two different parts of ONE value, the parts being truthy / falsy independently;
+            # the second flagged call also consumes the first one's result and another, unflagged value
+            fnp = new_fn("pack")
+            pa = [draw(_operand(env, cx, const_pool=FLAG_CONSTS, p_const=0.7)) for _i in range(2)]
+            unp = 2 if draw(st.booleans()) else None
+            o = out()
+            body.append({"k": "call", "fn": fnp, "site": cx.next_site(), "mark": True, "args": [e for e, _ in pa],
+                         "kwargs": {}, "active": None, "unpack": unp, "tags": [], "out": o})
+            env.add(["v", o], Ty("tup", [t for _, t in pa], desc=unp is not None))
+            if unp:
+                cx.features.add("unpack")
+            prev: Any = None
+            for idx in (draw(st.sampled_from([(0, 1), (1, 0)]))):
+                fn = new_fn("term")
+                args2 = [draw(_operand(env, cx))[0] for _i in range(draw(st.integers(0, 1)))]
+                if prev is not None and draw(st.booleans()):
+                    args2.append(prev)
+                o2 = out()
+                body.append({"k": "call", "fn": fn, "site": cx.next_site(), "mark": True, "args": args2, "kwargs": {},
+                             "active": ["i", ["v", o], idx], "unpack": None, "tags": [], "out": o2})
+                env.add(["v", o2], Ty("term", none=True))
+                prev = ["v", o2]
+            cx.features.update({"flag", "flag-indexed", "flag-split"})
+            continue
         if k == "op" and not env.leaves(_is_int):
             k = "call"
         if k == "debug":
@@ -242,7 +303,7 @@ def rich_prog(
                 fn = draw(st.sampled_from(reusable))
                 cx.features.add("reuse")
             else:
-                kind = draw(st.sampled_from(["term", "term", "int", "tup", "dict", "id", "pack"]))
+                kind = draw(st.sampled_from(["term", "term", "int", "tup", "dict", "id", "pack"] + (["str"] if seqop_w else [])))
                 if kind == "tup":
                     n = draw(st.integers(2, 3))
                     unp = n if (draw(st.booleans()) and not no_index) else None
@@ -292,6 +353,8 @@ def rich_prog(
                     cx.features.add("unpack")
             elif kind == "dict":
                 t = Ty("dict", DICT_T.elems, none=maybe_none)
+            elif kind == "str":
+                t = Ty("str", none=maybe_none)
             elif kind == "id":
                 t = Ty(tys[0].kind, tys[0].elems, none=tys[0].none or maybe_none)
             elif kind == "pack":
@@ -338,7 +401,7 @@ def rich_prog(
             sp = draw(rich_prog(cx=cx, depth=depth - 1, max_stmts=max(2, max_stmts // 2), flags=flags and not sub_flag,
                                 inner=True, resources=resources, setup_ok=setup_ok, attrs=attrs,
                                 allow_flag_stmts=allow_flag_stmts and not sub_flag, no_index=no_index or sub_flag,
-                                flag_w=flag_w, sub_w=sub_w, debug_w=debug_w))
+                                flag_w=flag_w, sub_w=sub_w, debug_w=debug_w, split_w=split_w, seqop_w=seqop_w))
             n_par = len(sp["params"])
             n_required = sum(1 for _n, d in sp["params"] if d is None)
             n_given = draw(st.integers(n_required, n_par))
